@@ -13,6 +13,8 @@ pub fn run(rep: &mut Report, tier: Tier, sel: &[&str], eval: Eval<'_>) {
         match *u {
             "tok" => u_tok(rep, tier, eval),
             "tok-small" => u_tok_n(rep, tier.pick(4, 5), eval),
+            // for evaluators that run many entry points per text: 4 tokens on every change, the full 6 in the thorough tier
+            "tok-wide" => u_tok_n(rep, tier.pick(4, 6), eval),
             "ctx" => u_ctx(rep, tier, eval),
             "num" => u_num(rep, tier, eval),
             "edge" => u_edge(rep, eval),
